@@ -86,6 +86,11 @@ CHECKS = {
             'For sweep cells, valid repository samples and small generated programs: every placement, one at a time, of a trailing comment, trailing spaces, a whole-line comment indented like the next / like the previous statement, 1-3 blank lines, whitespace-only lines of three indentations before every line (hence also before else, between match/handle head and first arm, between arms, before dedents), final-newline forms, comments at begin/end of file, LF->CRLF; and every sub-expression once in redundant parentheses.',
             'No trivia is inserted inside string literals; comments are not transpiled, so bytes must be identical; a non-reproducible baseline is left to C12.',
             'DESIGN.md section 4, C14'),
+    'C17': ('exploration',
+            'runtime monitor on executed modules: the emitted module is run and introspected (inspect.signature of every function, class, method; constructor signature as Python sees it incl. inherited; __bases__ order) against the table implied by the Mamba definitions; a generated Python client then calls every function positionally, with defaults omitted, by keyword and by keyword in reverse order',
+            'Random class/function shape family (0-4 class arguments with/without def, 0-3 parents with identifier/string arguments in any position, abstract parent, explicit constructor with default, interleaved fields/methods/operators, parameter defaults, vararg), generated programs and sweep cells, both flags; shape programs judged 2-3 times so that hash-order dependent member loss shows.',
+            'A class without class arguments and parent arguments needs no __init__ of its own: the constructor signature Python reports is what is compared.',
+            'DESIGN.md section 4, C17'),
 }
 
 NOT_YET = 'monitor not built yet in this revision (construction order: DESIGN.md section 9); not claimed rather than claimed weakly'
